@@ -260,8 +260,11 @@ def check_std_results(fs, model, errs, capped=False, tol=1e-9):
     for name, val in (("fs.logZ", fs.logZ), ("ns.log_evidence", ns.log_evidence), ("result['log_evidence']", d["log_evidence"])):
         if not (abs(float(val) - rec["logZ"]) <= tol * (1 + abs(rec["logZ"]))):
             err("log-evidence-differs-from-recomputation", f"{name}={val!r} vs {rec['logZ']!r}")
-    exp_err = math.sqrt(max(rec["info"], 0.0) / nlive)
+    # a negative information estimate (possible after very few iterations) gives NaN, as documented by sqrt(H/nlive)
+    exp_err = math.sqrt(rec["info"] / nlive) if rec["info"] >= 0 else float("nan")
     for name, val in (("fs.logZ_error", fs.logZ_error), ("result['log_evidence_error']", d["log_evidence_error"])):
+        if math.isnan(exp_err) and math.isnan(float(val)):
+            continue
         if not (abs(float(val) - exp_err) <= 1e-7 * (1 + exp_err)):
             err("log-evidence-error-differs-from-recomputation", f"{name}={val!r} vs sqrt(H/nlive)={exp_err!r} (H={rec['info']!r})")
     if abs(float(d["information"]) - rec["info"]) > 1e-7 * (1 + abs(rec["info"])):
@@ -316,7 +319,7 @@ def run_standard_case(cfg, want=("c01", "c05"), keep_output=False):
                 guards.append(Guarded(model))
                 try:
                     fs = FlowSampler(model, output=out, resume=True, **copy.deepcopy(kw))
-                    fs.run(plot=False, save=True)
+                    fs.run(plot=False, save=True, **cfg.get("run_kwargs", {}))
                     break
                 except KillSignal:
                     res["resumes"] += 1
@@ -329,7 +332,7 @@ def run_standard_case(cfg, want=("c01", "c05"), keep_output=False):
     except Exception as e:
         import traceback
 
-        if mon.populations == 0 and not any(g.rows for g in guards) and res["resumes"] == 0:
+        if mon.populations == 0 and res["resumes"] == 0:
             # configuration rejected before any sampling started: allowed (C20), not a failure
             res["rejected_up_front"] = f"{type(e).__name__}: {e}"
         else:
@@ -352,6 +355,351 @@ def run_standard_case(cfg, want=("c01", "c05"), keep_output=False):
         res["output"] = out
         res["fs"] = fs
         res["model"] = model
+    else:
+        shutil.rmtree(out, ignore_errors=True)
+    return res
+
+
+# =================================================================================
+# importance nested sampler
+
+
+def ins_base(seed=0, **over):
+    kw = dict(
+        importance_nested_sampler=True,
+        nlive=50,
+        min_samples=10,
+        max_iteration=4,
+        flow_config=dict(FLOW_TINY),
+        training_config=dict(TRAIN_TINY),
+        plot=False,
+        checkpointing=True,
+        checkpoint_on_iteration=True,
+        checkpoint_interval=1,
+        seed=seed,
+        signal_handling=False,
+        result_extension="json",
+    )
+    for k, v in over.items():
+        if k in ("flow_config", "training_config") and isinstance(v, dict):
+            kw[k] = {**kw[k], **v}
+        else:
+            kw[k] = v
+    return kw
+
+
+INS_OPTIONS = {
+    "reparameterisation": ["logit", None],
+    "strict_threshold": [False, True],
+    "replace_all": [False, True],
+    "draw_constant": [True, False],
+    "draw_iid_live": [True, False],
+    "ftype": ["realnvp", "maf", "nsf"],
+    "save_log_q": [False, True],
+    "threshold_method": ["entropy", "quantile"],
+}
+
+
+def _ins_kwargs(assign):
+    kw = {}
+    for k, v in assign.items():
+        if k == "ftype":
+            kw["flow_config"] = {"ftype": v}
+        else:
+            kw[k] = v
+    return kw
+
+
+def ins_lattice(seed, quick, resume_subsets=True):
+    """default + single deviations (quick) / full product (thorough), each with resume histories."""
+    import itertools
+
+    names = list(INS_OPTIONS)
+    assigns = [{}]
+    if quick:
+        for k in names:
+            for v in INS_OPTIONS[k][1:]:
+                assigns.append({k: v})
+        assigns.append({"weighted_kl": True})
+        assigns.append({"model": "G3"})
+        assigns.append({"min_remove": 5})
+        assigns.append({"max_samples": 120})
+    else:
+        assigns = []
+        for vals in itertools.product(*[INS_OPTIONS[k] for k in names]):
+            assigns.append({k: v for k, v in zip(names, vals) if v != INS_OPTIONS[k][0]})
+    cfgs = []
+    for a in assigns:
+        a = dict(a)
+        model = a.pop("model", "G2")
+        cfgs.append({"kind": "ins", "model": model, "seed": seed, "kwargs": _ins_kwargs(a), "resume": "none"})
+    if resume_subsets:
+        # every subset of resume points of the 4-iteration default run, and 'every' for the deviations
+        for r in range(1, 16):
+            pts = tuple(i + 1 for i in range(4) if r >> i & 1)
+            cfgs.append({"kind": "ins", "model": "G2", "seed": seed, "kwargs": {}, "resume": "at", "kill_at": pts})
+        for a in (assigns[1:] if quick else assigns[1::7]):
+            a = dict(a)
+            model = a.pop("model", "G2")
+            cfgs.append({"kind": "ins", "model": model, "seed": seed, "kwargs": _ins_kwargs(a), "resume": "every"})
+    return cfgs
+
+
+class InsMonitor:
+    """C03 oracle evaluated at the end of every INS iteration, after finalise and after resume."""
+
+    def __init__(self):
+        self.errs = []
+        self.checks = 0
+        self.samples_checked = 0
+        self.train_sizes = []
+        self.min_samples = None
+        # after a resume without saved log_q the table is re-derived in float32
+        self.rederived = False
+        self.started = False
+
+    def err(self, c, d=""):
+        self.errs.append((c, str(d)[:400]))
+
+    def check(self, ns, where):
+        import torch
+        from scipy.special import logsumexp
+
+        self.checks += 1
+        prop = ns.proposal
+        model = ns.model
+        w = np.asarray(prop.weights_array, dtype=float)
+        if abs(w.sum() - 1.0) > 1e-9:
+            self.err(f"{where}:proposal-weights-do-not-sum-to-one", w)
+        sets = [("training", ns.training_samples)]
+        if ns.iid_samples is not None:
+            sets.append(("iid", ns.iid_samples))
+        for name, osmp in sets:
+            s, lq = osmp.samples, osmp.log_q
+            tag = f"{where}:{name}"
+            if s is None:
+                continue
+            self.samples_checked += len(s)
+            if lq is None or lq.shape != (len(s), prop.n_proposals):
+                self.err(f"{tag}:log_q-shape", f"{None if lq is None else lq.shape} vs ({len(s)}, {prop.n_proposals})")
+                continue
+            if len(w) != prop.n_proposals:
+                self.err(f"{tag}:number-of-weights", (len(w), prop.n_proposals))
+                continue
+            counts = np.bincount(s["it"] + 1, minlength=prop.n_proposals) / len(s)
+            if np.max(np.abs(counts - w)) > 1e-12:
+                self.err(f"{tag}:weights-are-not-the-fraction-drawn-from-each-proposal", f"{w} vs {counts}")
+            if np.any(lq[:, 0] != 0.0):
+                self.err(f"{tag}:initial-proposal-density-not-zero")
+            if not np.all(model.in_unit_hypercube(s)):
+                self.err(f"{tag}:sample-outside-unit-hypercube")
+            x, log_j = prop.rescale(s)
+            with torch.no_grad():
+                xt = torch.from_numpy(x).type(torch.get_default_dtype())
+                for j, m in enumerate(prop.flow.models):
+                    m.eval()
+                    ref = m.log_prob(xt).cpu().numpy().astype(np.float64) + log_j
+                    got = lq[:, j + 1]
+                    both_inf = np.isinf(ref) & (ref == got)
+                    bad = ~both_inf & ~(np.abs(ref - got) <= 1e-4 + 1e-4 * np.abs(ref))
+                    if np.any(bad):
+                        i = int(np.flatnonzero(bad)[0])
+                        self.err(f"{tag}:stored-density-differs-from-proposal-re-evaluated", f"proposal {j}, sample {i} (it={s['it'][i]}): stored {got[i]!r} vs {ref[i]!r}; {int(bad.sum())} samples")
+                        break
+            logQ = logsumexp(lq, b=w, axis=1)
+            qtol = 1e-4 if self.rederived else 1e-9
+            if np.any(~(np.abs(logQ - s["logQ"]) <= qtol * (1 + np.abs(logQ)))):
+                i = int(np.flatnonzero(~(np.abs(logQ - s["logQ"]) <= qtol * (1 + np.abs(logQ))))[0])
+                self.err(f"{tag}:logQ-is-not-the-weighted-mixture", f"sample {i}: {s['logQ'][i]!r} vs {logQ[i]!r}")
+            if np.any(~(np.abs(s["logW"] - (s["logU"] - s["logQ"])) <= 1e-12 * (1 + np.abs(s["logQ"])))):
+                self.err(f"{tag}:logW-is-not-logU-minus-logQ")
+            lu = np.asarray(model.log_prior_unit_hypercube(s), dtype=float)
+            if np.any(lu != s["logU"]):
+                self.err(f"{tag}:logU-differs-from-model")
+            ll = np.asarray(model.log_likelihood(model.from_unit_hypercube(s)), dtype=float)
+            if np.any(~((ll == s["logL"]) | (np.abs(ll - s["logL"]) <= 1e-12 * (1 + np.abs(ll))))):
+                self.err(f"{tag}:logL-differs-from-model")
+            if np.any(np.diff(s["logL"]) < 0):
+                self.err(f"{tag}:not-sorted")
+
+    @contextlib.contextmanager
+    def installed(self):
+        from nessai.samplers.importancesampler import ImportanceNestedSampler as INS
+        from nessai.proposal.importance import ImportanceFlowProposal as IFP
+
+        mon = self
+        o_up, o_fin, o_train = INS.update_evidence, INS.finalise, IFP.train
+
+        def update_evidence(ns):
+            r = o_up(ns)
+            mon.min_samples = ns.min_samples
+            mon.check(ns, "iteration")
+            return r
+
+        def finalise(ns):
+            was = ns.finalised
+            r = o_fin(ns)
+            if not was:
+                mon.check(ns, "finalise")
+            return r
+
+        def train(prop, samples, *a, **k):
+            mon.train_sizes.append(len(samples))
+            return o_train(prop, samples, *a, **k)
+
+        o_pop = INS.populate_live_points
+
+        def populate_live_points(ns):
+            mon.started = True
+            return o_pop(ns)
+
+        INS.update_evidence, INS.finalise, IFP.train, INS.populate_live_points = update_evidence, finalise, train, populate_live_points
+        try:
+            yield self
+        finally:
+            INS.update_evidence, INS.finalise, IFP.train, INS.populate_live_points = o_up, o_fin, o_train, o_pop
+
+
+def check_ins_results(fs, model, errs, tol=1e-9):
+    """C05 oracle for the importance sampler, from the returned arrays only."""
+    from scipy.special import logsumexp
+    import mpmath as mp
+
+    ns = fs.ns
+
+    def err(c, d=""):
+        errs.append((c, str(d)[:400]))
+
+    samples = np.asarray(fs.nested_samples)
+    hist = ns.history
+    n_expected = ns.n_initial + int(np.sum(hist["n_added"]))
+    if len(samples) != n_expected:
+        err("ins:number-of-returned-samples", f"{len(samples)} vs n_initial {ns.n_initial} + added {hist['n_added']}")
+    if np.any(np.diff(samples["logL"]) < 0):
+        err("ins:returned-samples-not-ascending")
+    ll = np.asarray(model.log_likelihood(samples), dtype=float)
+    if np.any(~((ll == samples["logL"]) | (np.abs(ll - samples["logL"]) <= 1e-12 * (1 + np.abs(ll))))):
+        err("ins:stored-logL-differs-from-model")
+    lp = np.asarray(model.log_prior(samples), dtype=float)
+    if np.any(~((lp == samples["logP"]) | (np.abs(lp - samples["logP"]) <= 1e-9 * (1 + np.abs(lp))))):
+        err("ins:stored-logP-differs-from-model", f"{samples['logP'][:3]} vs {lp[:3]}")
+    lw = samples["logL"] + samples["logW"]
+    n = len(samples)
+    logZ = float(logsumexp(lw) - np.log(n))
+    mp.mp.dps = 40
+    Zi = [mp.exp(mp.mpf(float(v))) for v in lw]
+    Zhat = sum(Zi) / n
+    u = mp.sqrt(sum((z - Zhat) ** 2 for z in Zi) / (n * (n - 1))) / Zhat
+    for name, val in (("fs.logZ", fs.logZ), ("ns.log_evidence", ns.log_evidence)):
+        if abs(float(val) - logZ) > tol * (1 + abs(logZ)):
+            err("ins:log-evidence-differs-from-recomputation", f"{name}={val!r} vs {logZ!r}")
+    if abs(float(fs.logZ_error) - float(u)) > 1e-7 * (1 + float(u)):
+        err("ins:log-evidence-error-differs-from-recomputation", f"{fs.logZ_error!r} vs {float(u)!r}")
+    pw = np.asarray(ns.log_posterior_weights, dtype=float)
+    if len(pw) != n or np.max(np.abs(pw - (lw - logZ))) > 1e-9 * (1 + np.max(np.abs(lw))):
+        err("ins:log-posterior-weights-differ-from-recomputation")
+    try:
+        d = ns.get_result_dictionary()
+    except Exception as e:
+        err(f"ins:result-dictionary-raises-{type(e).__name__}", e)
+        return
+    if ns.iid_samples is not None or ns._final_samples is not None:
+        if d["log_evidence"] is None or abs(float(d["log_evidence"]) - logZ) > tol * (1 + abs(logZ)):
+            err("ins:result-dict-log-evidence", f"{d['log_evidence']!r} vs {logZ!r}")
+        if d["samples"] is None or np.asarray(d["samples"]).tobytes() != samples.tobytes():
+            err("ins:result-dict-samples-differ")
+        if d["log_posterior_weights"] is None or np.asarray(d["log_posterior_weights"]).tobytes() != pw.tobytes():
+            err("ins:result-dict-weights-differ")
+        if d["log_evidence_error"] is None or abs(float(d["log_evidence_error"]) - float(u)) > 1e-7 * (1 + float(u)):
+            err("ins:result-dict-log-evidence-error")
+    post = np.asarray(fs.posterior_samples)
+    rowset = {r.tobytes() for r in samples}
+    if any(r.tobytes() not in rowset for r in post):
+        err("ins:posterior-samples-not-rows-of-nested-samples")
+    if d["total_likelihood_evaluations"] != model.likelihood_evaluations:
+        err("ins:result-dict-evaluation-count")
+
+
+def ins_digest(ns):
+    def os_d(o):
+        if o is None:
+            return None
+        return dict(samples=_b(o.samples), live=_b(o.live_points_indices), nested=_b(o.nested_samples_indices), thr=repr(o.log_likelihood_threshold))
+
+    return dict(
+        iteration=ns.iteration,
+        training=os_d(ns.training_samples),
+        iid=os_d(ns.iid_samples),
+        threshold=repr(ns.log_likelihood_threshold),
+        sample_counts=repr(sorted(ns.sample_counts.items())),
+        weights=repr(sorted(ns.proposal.weights.items())),
+        level_count=ns.proposal.level_count,
+        logZ=repr(float(ns.log_evidence)),
+        history={k: repr(v) for k, v in (ns.history or {}).items() if k != "sampling_time"},
+        finalised=ns.finalised,
+    )
+
+
+def run_ins_case(cfg, want=("c03", "c05"), keep_output=False, run_kwargs=None):
+    from nessai.flowsampler import FlowSampler
+
+    reset_globals()
+    out = scratch("ins")
+    kw = ins_base(cfg.get("seed", 0), **cfg.get("kwargs", {}))
+    mon = InsMonitor()
+    at = "every" if cfg.get("resume") == "every" else set(cfg.get("kill_at", ()))
+    killer = CheckpointKiller(at)
+    res = dict(key=cfg_key(cfg), errs=[], iterations=0, resumes=0)
+    guards = []
+    fs = None
+    model = None
+    started = False
+    try:
+        with mon.installed(), killer.installed():
+            for attempt in range(100):
+                model = make(cfg.get("model", "G2"))
+                guards.append(Guarded(model))
+                try:
+                    fs = FlowSampler(model, output=out, resume=True, **copy.deepcopy(kw))
+                    if fs.ns.iteration > 0 or fs.ns.finalised:
+                        if not kw.get("save_log_q", False):
+                            mon.rederived = True
+                        mon.check(fs.ns, "after-resume")
+                    fs.run(plot=False, save=True, **{**cfg.get("run_kwargs", {}), **(run_kwargs or {})})
+                    break
+                except KillSignal:
+                    res["resumes"] += 1
+                    if fs is not None and getattr(fs.ns, "finalised", False):
+                        killer.at = ()
+                    continue
+            else:
+                res["errs"].append(("run-did-not-finish-after-100-resumes", ""))
+    except Exception as e:
+        import traceback
+
+        if not mon.started and res["resumes"] == 0:
+            res["rejected_up_front"] = f"{type(e).__name__}: {e}"
+        else:
+            res["errs"].append((f"run-raises-{type(e).__name__}", f"{e} | {traceback.format_exc()[-600:]}"))
+        fs = None
+    res["iterations"] = mon.checks
+    res["samples_checked"] = mon.samples_checked
+    if "c03" in want:
+        res["errs"] += mon.errs
+    if mon.min_samples is not None and any(t < mon.min_samples for t in mon.train_sizes):
+        res["errs"].append(("proposal-trained-on-fewer-than-min_samples", f"{mon.train_sizes} min_samples={mon.min_samples}"))
+    res["train_sizes"] = mon.train_sizes
+    for g in guards:
+        if g.bad:
+            res["errs"].append(("likelihood-called-outside-prior-support", g.bad[0]))
+    if fs is not None and "c05" in want and not res["errs"]:
+        check_ins_results(fs, model, res["errs"])
+    if fs is not None:
+        res["logZ"] = float(fs.logZ)
+        res["n_samples"] = int(len(fs.nested_samples))
+        res["ns_iterations"] = int(fs.ns.iteration)
+    if keep_output:
+        res.update(output=out, fs=fs, model=model)
     else:
         shutil.rmtree(out, ignore_errors=True)
     return res
